@@ -18,28 +18,28 @@ var commonAssumptions = []string{
 var plans = map[string]plan{
 	"C08": {
 		Level:    "exploration",
-		Rule:     "case = (requested type, input bytes) run through all 5 skipping facilities (7 configurations); inputs: bounded-exhaustive strings over a 15-symbol grammar alphabet, mutated valid encodings (truncate/substitute/size-window/splice/insert/delete), huge size fields, nesting 1..70 per container kind and through every entry position, size fields 0x7fffffff..0xffffffff really followed by that many (untouched, mapped) bytes, a follow-up call on the same decoder after every rejection. Non-trivial iff the oracle rejects the input or accepts it with nesting >= 2; distinct by (type, bytes). Also: one SkipDecoder whose reader is also read directly between two Next calls (values and raw bytes alternating on bytes-backed, stream-backed and foreign readers, stream possibly ending in a cut-short value); the stream-backed skippers run over standard-library readers (bytes.Reader, strings.Reader, bufio, iotest, Limit/Multi/Section) a quarter of the time. A struct walked field by field on ReaderSkipDecoder: headers with the exported SkipN, values with Next. The exported skip template run directly over each of the three decoders (accept / reject judged). Several values in a row on one BytesSkipDecoder, the last possibly cut short, the slice ending at a guard page or being a view with the missing bytes behind it.",
+		Rule:     "case = (requested type, input bytes) run through all 5 skipping facilities (7 configurations); inputs: bounded-exhaustive strings over a 15-symbol grammar alphabet, mutated valid encodings (truncate/substitute/size-window/splice/insert/delete), huge size fields, nesting 1..70 per container kind and through every entry position, size fields 0x7fffffff..0xffffffff really followed by that many (untouched, mapped) bytes, a follow-up call on the same decoder after every rejection. Non-trivial iff the oracle rejects the input or accepts it with nesting >= 2; distinct by (type, bytes). Also: one SkipDecoder whose reader is also read directly between two Next calls (values and raw bytes alternating on bytes-backed, stream-backed and foreign readers, stream possibly ending in a cut-short value); the stream-backed skippers run over standard-library readers (bytes.Reader, strings.Reader, bufio, iotest, Limit/Multi/Section) a quarter of the time. A struct walked field by field on ReaderSkipDecoder: headers with the exported SkipN, values with Next. The exported skip template run directly over each of the three decoders (accept / reject judged). Several values in a row on one BytesSkipDecoder, the last possibly cut short, the slice ending at a guard page or being a view with the missing bytes behind it. Garbled values stepped over by the caller on the shared reader; a third of the values on the stream-backed reader are skipped with BufferReader.Skip.",
 		Required: []string{"oracle-accept judged", "oracle-reject judged", "nesting>=65 cases"},
 		Quick:    []job{{"plain", 8}},
 		Thorough: []job{{"gcstress", 4}, {"plain", 16}, {"race", 4}, {"go126", 4}, {"fuzz", 3}},
 	},
 	"C02": {
 		Level:    "exploration",
-		Rule:     "case = 1..3 well-formed values (generated typed trees) back-to-back + 0..64 trailing bytes on ONE instance of each skipper, under one of 6 fragmentation schedules, optionally with the final data delivered together with io.EOF; plus the full container x key-type x value-type x size grid under all schedules, nesting 1..63 for every container kind, strings around the 4096/8192 boundaries, multi-megabyte values incl. release-after-huge-value histories with co-tenants of the buffer pool. Non-trivial iff a value has nesting >= 2, or is a container > 20 bytes, or is > 4096 bytes; distinct by (value shapes, bytes, trailing length, schedule, eof mode). Histories of 4-16 values on one stream-backed reader that is released after about every second value (strings up to 70000 bytes); ReaderSkipDecoder over a source that is drained, polled (io.EOF) and refilled. A quarter of the ReaderSkipDecoder streams end at the last value's last byte with an error (io.EOF or another) delivered together with the data.",
+		Rule:     "case = 1..3 well-formed values (generated typed trees) back-to-back + 0..64 trailing bytes on ONE instance of each skipper, under one of 6 fragmentation schedules, optionally with the final data delivered together with io.EOF; plus the full container x key-type x value-type x size grid under all schedules, nesting 1..63 for every container kind, strings around the 4096/8192 boundaries, multi-megabyte values incl. release-after-huge-value histories with co-tenants of the buffer pool. Non-trivial iff a value has nesting >= 2, or is a container > 20 bytes, or is > 4096 bytes; distinct by (value shapes, bytes, trailing length, schedule, eof mode). Histories of 4-16 values on one stream-backed reader that is released after about every second value (strings up to 70000 bytes); ReaderSkipDecoder over a source that is drained, polled (io.EOF) and refilled. A quarter of the ReaderSkipDecoder streams end at the last value's last byte with an error (io.EOF or another) delivered together with the data. Garbled values of known length (a negative size in second position) between the well-formed ones: refused, stepped over by the caller, the same decoder used again.",
 		Required: []string{"values skipped", "reader-skip-decoder values", "grid combinations", "long-string cases"},
 		Quick:    []job{{"plain", 8}},
 		Thorough: []job{{"gcstress", 4}, {"plain", 16}, {"race", 4}},
 	},
 	"C03": {
 		Level:    "exploration",
-		Rule:     "case = input bytes run through every buffer-based decoding entry point (23 + Binary.Skip/BytesSkipDecoder for several requested type bytes) at two guard-page placements (input ends at / starts after a PROT_NONE page). Inputs: all strings of length <= 2, grammar-alphabet strings, mutations/truncations/boundary substitutions of valid encodings of every shape (values, Base/BaseResp/exception structs, messages, unknown-field sequences, TTHeader frames), huge size fields. Non-trivial iff length >= 1 and (mutated valid encoding or alphabet string of length >= 3); distinct by bytes. Also: every third case additionally places the input in write-protected pages (a store into the input is a fault, reported as decoder-wrote-into-its-input); thorough tier: 2^31 and 2^32 calls of ReadString/ReadBinary with the span cache on (call-counters-wrap). Wide values: 1.5 million sibling fields / elements at one level under a 32 MiB stack cap.",
+		Rule:     "case = input bytes run through every buffer-based decoding entry point (23 + Binary.Skip/BytesSkipDecoder for several requested type bytes) at two guard-page placements (input ends at / starts after a PROT_NONE page). Inputs: all strings of length <= 2, grammar-alphabet strings, mutations/truncations/boundary substitutions of valid encodings of every shape (values, Base/BaseResp/exception structs, messages, unknown-field sequences, TTHeader frames), huge size fields. Non-trivial iff length >= 1 and (mutated valid encoding or alphabet string of length >= 3); distinct by bytes. Also: every third case additionally places the input in write-protected pages (a store into the input is a fault, reported as decoder-wrote-into-its-input); thorough tier: 2^31 and 2^32 calls of ReadString/ReadBinary with the span cache on (call-counters-wrap). Wide values: 1.5 million sibling fields / elements at one level under a 32 MiB stack cap. TTHeader frames declaring 240..255 transform ids in header-info sections long enough to hold them.",
 		Required: []string{"guarded decoder calls", "decoder successes", "decoder errors", "full truncation sweeps"},
 		Quick:    []job{{"plain", 8}},
 		Thorough: []job{{"gcstress", 4}, {"plain", 16}, {"asan", 8}, {"race", 4}, {"go126", 4}, {"fuzz", 3}},
 	},
 	"C04": {
 		Level:    "fault_enumeration",
-		Rule:     "case = operation history over {Next,Peek,Skip,ReadBinary}x{0,1,7,4095,4096,4097,8193,20000} + Release (bounded-exhaustive to length 3/4 over these 33 symbols x 6 source behaviours; random to 300 steps incl. negative counts) x hostile source (chunk schedule, zero-byte reads, error kind, error position, error with/after the final data; every error position of every stream <= 64 bytes; endless zero-read source) for the io.Reader-backed and the bytes-backed reader. Every result is checked online against a cursor model over a position-coded stream. Non-trivial iff the history saw a growth (request > 4096 or > 1 pool malloc), a request spanning >= 2 source reads, a surfaced error, or a Release with an unread buffered tail; distinct by (ops, source behaviour, reader kind). Also: 1-5 MiB consumed and peeked between two Releases with every slice kept; 0..99 empty reads between the last data and the error, for every count. 66000 Release cycles on one reader.",
+		Rule:     "case = operation history over {Next,Peek,Skip,ReadBinary}x{0,1,7,4095,4096,4097,8193,20000} + Release (bounded-exhaustive to length 3/4 over these 33 symbols x 6 source behaviours; random to 300 steps incl. negative counts) x hostile source (chunk schedule, zero-byte reads, error kind, error position, error with/after the final data; every error position of every stream <= 64 bytes; endless zero-read source) for the io.Reader-backed and the bytes-backed reader. Every result is checked online against a cursor model over a position-coded stream. Non-trivial iff the history saw a growth (request > 4096 or > 1 pool malloc), a request spanning >= 2 source reads, a surfaced error, or a Release with an unread buffered tail; distinct by (ops, source behaviour, reader kind). Also: 1-5 MiB consumed and peeked between two Releases with every slice kept; 0..99 empty reads between the last data and the error, for every count. 66000 Release cycles on one reader. The source's terminal error is one of five values, among them one that wraps io.EOF and a timeout.",
 		Required: []string{"errors surfaced", "histories with growth", "releases with unread buffered tail", "errors delivered with data", "zero reads served", "error-position cases", "no-progress histories"},
 		Quick:    []job{{"plain", 8}, {"poison", 4}},
 		Thorough: []job{{"gcstress", 4}, {"plain", 16}, {"poison", 8}},
@@ -88,7 +88,7 @@ var plans = map[string]plan{
 	},
 	"C11": {
 		Level:    "exploration",
-		Rule:     "case = Base / BaseResp / ApplicationException value (strings of 0..9000 bytes, nil / empty / 1..50-entry maps): BLength vs FastWrite vs FastWriteNocopy(nil) vs FastRead lengths, bytes vs an independent encoder (maps <= 1 entry), value reproduced; then the same value encoded independently with the known fields in a random permutation and 0..6 unknown fields of any type (generated value trees; ids equal to known ids with another type, ids colliding modulo 256, whole int16 range) inserted at every gap, followed by trailing garbage: FastRead must return the exact stream length and undisturbed known fields. Inputs sit in a guard-page arena. Non-trivial iff >= 1 unknown field; distinct by (struct kind, field order, bytes). Also: the direct-writer cases of C15 (FastWriteNocopy with a recording NocopyWriter, field lengths on both sides of the threshold and pairs that straddle it).",
+		Rule:     "case = Base / BaseResp / ApplicationException value (strings of 0..9000 bytes, nil / empty / 1..50-entry maps): BLength vs FastWrite vs FastWriteNocopy(nil) vs FastRead lengths, bytes vs an independent encoder (maps <= 1 entry), value reproduced; then the same value encoded independently with the known fields in a random permutation and 0..6 unknown fields of any type (generated value trees; ids equal to known ids with another type, ids colliding modulo 256, whole int16 range) inserted at every gap, followed by trailing garbage: FastRead must return the exact stream length and undisturbed known fields. Inputs sit in a guard-page arena. Non-trivial iff >= 1 unknown field; distinct by (struct kind, field order, bytes). Also: the direct-writer cases of C15 (FastWriteNocopy with a recording NocopyWriter, field lengths on both sides of the threshold and pairs that straddle it). Half of the BaseResp / ApplicationException reads have further bytes behind the struct.",
 		Required: []string{"structs checked", "structs with unknown fields"},
 		Quick:    []job{{"plain", 8}},
 		Thorough: []job{{"gcstress", 4}, {"plain", 16}},
@@ -116,7 +116,7 @@ var plans = map[string]plan{
 	},
 	"C16": {
 		Level:    "exploration",
-		Rule:     "case = run of strings/binaries decoded by thrift.Binary (lengths over every span-allocator class: 0, <128, every power of two +-1 up to 128 KiB, larger; runs of 200..800 values wrapping the 1 MiB spans) with the span cache off and on; every returned []byte is appended to and overwritten, then the input buffer is overwritten: input, siblings and snapshots must stay intact, and returned slices (incl. spare capacity) must not overlap the input; stream reader: values of a first message retained across Release, Recycle, pool reuse by a co-tenant and the decoding of a second message through a recycled BufferReader; decoded Base / ApplicationException / unknown-field trees after their input is overwritten. Non-trivial iff length >= 1; distinct by (lengths, reader kind, span-cache setting). Also: 5 MiB (thorough 24 MiB) of values of one size class (0-127, 1-16, 128-255, 1-2 KiB bytes) all kept and re-verified; 3-8 goroutines decoding one size class at once, each overwriting its own byte slices in place (also under the race detector); values decoded by other readers while one stream reader is in the middle of a value that then fails or completes. The concurrent decoders alternate thrift.Binary and one BufferReader per value, and the cache is switched on under GOMAXPROCS(1) in half of the cases. The kept-across-many-blocks runs are repeated through thrift.BufferReader (one reader per 64 KiB of values).",
+		Rule:     "case = run of strings/binaries decoded by thrift.Binary (lengths over every span-allocator class: 0, <128, every power of two +-1 up to 128 KiB, larger; runs of 200..800 values wrapping the 1 MiB spans) with the span cache off and on; every returned []byte is appended to and overwritten, then the input buffer is overwritten: input, siblings and snapshots must stay intact, and returned slices (incl. spare capacity) must not overlap the input; stream reader: values of a first message retained across Release, Recycle, pool reuse by a co-tenant and the decoding of a second message through a recycled BufferReader; decoded Base / ApplicationException / unknown-field trees after their input is overwritten. Non-trivial iff length >= 1; distinct by (lengths, reader kind, span-cache setting). Also: 5 MiB (thorough 24 MiB) of values of one size class (0-127, 1-16, 128-255, 1-2 KiB bytes) all kept and re-verified; 3-8 goroutines decoding one size class at once, each overwriting its own byte slices in place (also under the race detector); values decoded by other readers while one stream reader is in the middle of a value that then fails or completes. The concurrent decoders alternate thrift.Binary and one BufferReader per value, and the cache is switched on under GOMAXPROCS(1) in half of the cases. The kept-across-many-blocks runs are repeated through thrift.BufferReader (one reader per 64 KiB of values). The struct stage also keeps the tree of GetUnknownFields and overwrites the holder's bytes.",
 		Required: []string{"buffer-decoded values attacked", "stream-decoded values attacked", "structs attacked", "bytes decoded in runs"},
 		Quick:    []job{{"plain", 8}, {"race", 2}},
 		Thorough: []job{{"gcstress", 4}, {"plain", 16}, {"race", 4}, {"go126", 4}},
@@ -130,7 +130,7 @@ var plans = map[string]plan{
 	},
 	"C18": {
 		Level:    "exploration",
-		Rule:     "case = error term built from {plain, fmt.Errorf(%w) chain, transport, protocol, application, foreign exception with TypeId(), foreign type embedding *ApplicationException, protocol exception wrapping any of these} with type ids over the default-message table, boundaries and random int32, empty and colliding texts, and a prefix (empty or not): PrependError must keep the exception kind class, the type id and produce prefix+text; NewProtocolExceptionWithErr must be the identity on protocol exceptions and otherwise keep errors.Unwrap(result)==cause and errors.Is(result, cause); errors.Is(receiver, target) over all ordered pairs of a pool (with look-alikes of equal / off-by-one type id and text in every kind) must equal the statement's definition evaluated by a small recursive model. Exhaustive kind x id x empty/non-empty text x empty/non-empty prefix grid. Every case is non-trivial; distinct by term description.",
+		Rule:     "case = error term built from {plain, fmt.Errorf(%w) chain, transport, protocol, application, foreign exception with TypeId(), foreign type embedding *ApplicationException, protocol exception wrapping any of these} with type ids over the default-message table, boundaries and random int32, empty and colliding texts, and a prefix (empty or not): PrependError must keep the exception kind class, the type id and produce prefix+text; NewProtocolExceptionWithErr must be the identity on protocol exceptions and otherwise keep errors.Unwrap(result)==cause and errors.Is(result, cause); errors.Is(receiver, target) over all ordered pairs of a pool (with look-alikes of equal / off-by-one type id and text in every kind) must equal the statement's definition evaluated by a small recursive model. Exhaustive kind x id x empty/non-empty text x empty/non-empty prefix grid. Every case is non-trivial; distinct by term description. The foreign kinds include an exception that implements fmt.Formatter.",
 		Required: []string{"prepend cases", "wrappers built", "is-pairs compared", "is-pairs matching"},
 		Quick:    []job{{"plain", 8}},
 		Thorough: []job{{"gcstress", 4}, {"plain", 16}},
@@ -144,7 +144,7 @@ var plans = map[string]plan{
 	},
 	"C20": {
 		Level:    "exploration",
-		Rule:     "case = (conversion variant: the compiled go1.21+ file and the legacy pre-go1.21 file copied from /repo at check time, input shape): every length 0..300 and classes up to 1 MiB, byte slices with spare capacity 0/1/48, substrings at several offsets of a larger string backed by a mutable heap block with canary bytes; checks content, length, shared data pointer (a write through the slice is visible through the string), cap(StringToBinary(s)) == len(s), and that append(StringToBinary(s), ...) leaves the enclosing memory unchanged; nil / empty / zero-length-subslice inputs must not panic and must yield empty results. Non-trivial iff len >= 1 or the nil/empty distinction; distinct by (variant, shape). A third conversion variant passes an argument of a named slice type.",
+		Rule:     "case = (conversion variant: the compiled go1.21+ file and the legacy pre-go1.21 file copied from /repo at check time, input shape): every length 0..300 and classes up to 1 MiB, byte slices with spare capacity 0/1/48, substrings at several offsets of a larger string backed by a mutable heap block with canary bytes; checks content, length, shared data pointer (a write through the slice is visible through the string), cap(StringToBinary(s)) == len(s), and that append(StringToBinary(s), ...) leaves the enclosing memory unchanged; nil / empty / zero-length-subslice inputs must not panic and must yield empty results. Non-trivial iff len >= 1 or the nil/empty distinction; distinct by (variant, shape). A third conversion variant passes an argument of a named slice type. Lengths off the page grid (32769, 40001, 70001, 131071..131077, 204803).",
 		Required: []string{"conversions checked", "empty/nil inputs checked"},
 		Quick:    []job{{"plain", 2}, {"race", 2}},
 		Thorough: []job{{"gcstress", 4}, {"plain", 4}, {"race", 2}, {"asan", 2}, {"go126", 2}},
